@@ -284,7 +284,9 @@ def get_abacus_structure(atoms, pps, orbitals=None, abfs=None):
     index = 0
     for i, elem in enumerate(elements):
         line.append(f"{elem}\n{0}\n{numbers[i]}")
-        for j in range(index, index + numbers[i]):
+        # Atoms of this element, in their original order (species may be
+        # interleaved in the cell).
+        for j in [k for k, s in enumerate(atoms.symbols) if s == elem]:
             if atoms.magnetic_moments is not None:
                 line_part = (
                     " ".join(_list_elem2str(atoms.scaled_positions[j])) + " 1 1 1"
